@@ -475,6 +475,16 @@ func explore(r *ev.Report, c Chain, curFile string) {
 		exploreLong(r, c)
 		return
 	}
+	for _, pg := range c.Pages {
+		if pg.Size > 64 {
+			exploreBig(r, c)
+			return
+		}
+	}
+	if c.RootItems > 64 {
+		exploreBig(r, c)
+		return
+	}
 	sizes := sizesQuick
 	// E2: breadth-first over reference states (items delivered so far, ended)
 	type node struct{ path []int }
@@ -576,6 +586,45 @@ func longChains() []Chain {
 	return out
 }
 
+// bigPages: the other size phase. One or two pages (or the root) holding 65..300 items
+// each - more than any batch a page's items may be worked off in.
+func bigPages() []Chain {
+	var out []Chain
+	for _, kind := range []string{"Collection", "OrderedCollection"} {
+		for _, n := range []int{65, 127, 128, 129, 130, 256, 257, 300} {
+			for _, remote := range []bool{false, true} {
+				out = append(out, Chain{Kind: kind, RootItems: -1, Tail: "absent", Pages: []Page{{Size: n, Remote: remote}}})
+				out = append(out, Chain{Kind: kind, RootItems: 1, Tail: "404", Pages: []Page{{Size: n, Remote: remote}, {Size: 3, Remote: remote}}})
+				out = append(out, Chain{Kind: kind, RootItems: 2, Tail: "absent", Pages: []Page{{Size: 2, Remote: remote}, {Size: n, Remote: remote}}})
+			}
+			out = append(out, Chain{Kind: kind, RootItems: n, Tail: "absent"})
+			out = append(out, Chain{Kind: kind, RootItems: n, Tail: "absent", Pages: []Page{{Size: 1}}})
+		}
+	}
+	return out
+}
+
+// exploreBig: requests around the page size and around powers of two, alone and after
+// smaller ones.
+func exploreBig(r *ev.Report, c Chain) {
+	for _, reqs := range [][]int{{1000}, {-1}, {300, 300}, {129, 129, 129}, {128, 128, 128}, {127, 2, 500}, {1, 128, 500}, {64, 65, 500}, {256, 1, 500}, {7, 500}, {130}, {257, 100}} {
+		key, msg, _, _ := runSession(c, reqs)
+		r.Transitions += int64(len(reqs))
+		if key != "" {
+			report(r, c, reqs, "big-page:"+key, msg)
+		}
+	}
+	for _, st := range []int{1, 127, 128, 129} {
+		reqs := []int{500, 7}
+		if key, _, _, _ := runSessionFrom(c, reqs, st); key != "" {
+			r.Violation("offset:big-page:"+key, session{c, reqs, st})
+		}
+		r.Transitions += 2
+	}
+	r.States += 1
+	r.Eval(1)
+}
+
 // exploreLong: the whole chain in one request, in requests of 7, and one item at a time.
 func exploreLong(r *ev.Report, c Chain) {
 	n := len(c.Pages)
@@ -603,7 +652,7 @@ func exploreLong(r *ev.Report, c Chain) {
 func main() {
 	r := ev.New("C10", "model_checking",
 		"page chains: kind {Collection, OrderedCollection} x root items {absent,0,1,2} x page-size vectors (<=3 pages of size 0..2 quick, <=4 pages of size 0..3 thorough) x placement {embedded, remote, alternating, reference stub {id,type}, reference stub {id}} x "+
-			"tail {absent, null, self-cycle, cycle to each earlier page, 404, wrong type, non-JSON} (+ single-value item lists, + pages that also carry first/last/prev as real servers send them); + a size phase of chains of 33, 40 and 70 pages (dense and with three empty pages between items, embedded and remote, ending / failing / cyclic) walked in one request, in sevens and one at a time; per chain an explicit-state search over request sequences with sizes {0,1,2,3,4,7} "+
+			"tail {absent, null, self-cycle, cycle to each earlier page, 404, wrong type, non-JSON} (+ single-value item lists, + pages that also carry first/last/prev as real servers send them); + a size phase of chains of 33, 40 and 70 pages (dense and with three empty pages between items, embedded and remote, ending / failing / cyclic) walked in one request, in sevens and one at a time; + pages (and roots) of 65..300 items under requests around the page size and powers of two; per chain an explicit-state search over request sequences with sizes {0,1,2,3,4,7} "+
 			"(state = items delivered so far), each transition replayed on a fresh Collection through the continuation protocol, plus all unmerged request pairs and first requests with start offsets 1,2,3,5; on acyclic chains also requests of 2^32+1, 2^48, the largest int and the largest uint, first, after small requests and at start offsets; distinct_nontrivial = chains with at least two pages or a cycle")
 	debug.SetMaxStack(64 << 20)
 	if *ev.FlagReplay != "" {
@@ -622,6 +671,7 @@ func main() {
 	}
 	all := chains(r.Thorough())
 	all = append(all, longChains()...)
+	all = append(all, bigPages()...)
 	if i, n, ok := par.Shard(); ok {
 		cur := *ev.FlagOut + ".cur"
 		for k := i; k < len(all); k += n {
